@@ -163,6 +163,10 @@ func VerifGzDiff() {
 		verifrt.Cover("default-mode")
 		verifrt.Assert(vhEqual(fout, sout), "C08:bytes")
 		verifrt.Assert(vgErrKind(fe) == vgErrKind(se), "C08:error-kind")
+		var again [4]byte
+		fa, fae := fz.Read(again[:])
+		sa, sae := sz.Read(again[:])
+		verifrt.Assert(fa == sa && vgErrKind(fae) == vgErrKind(sae), "C08:read-after-end")
 		return
 	}
 	// member by member
@@ -178,6 +182,11 @@ func VerifGzDiff() {
 			return
 		}
 		verifrt.Cover("member-done")
+		// reading again after the end of a member changes nothing
+		var again [4]byte
+		fa, fae := fz.Read(again[:])
+		sa, sae := sz.Read(again[:])
+		verifrt.Assert(fa == sa && vgErrKind(fae) == vgErrKind(sae), "C08:read-after-member-end")
 		// C05 one level up: both sources are positioned identically
 		verifrt.Assert(fsrc.Buffered()+fund.Len() == ssrc.Buffered()+sund.Len(), "C05:gzip-source-position")
 		e1 := fz.Reset(fsrc)
@@ -237,7 +246,7 @@ func VerifGzWrite() {
 	lvl := verifrt.Pick("level", 4) // 0 -> NoCompression, 1 -> BestSpeed, 2 -> level 2... see table
 	levels := [4]int{0, 1, 9, -2}
 	level := levels[lvl]
-	pat := verifrt.Pick("ops", 4)
+	pat := verifrt.Pick("ops", 6)
 	var fs, ss vgSink
 	fw, e1 := NewWriterLevel(&fs, level)
 	sw, e2 := stdgzip.NewWriterLevel(&ss, level)
@@ -303,6 +312,27 @@ func VerifGzWrite() {
 		do(0, 1, 0, 0)
 		do(1, 0, 0, len(payload))
 		do(2, 2, 0, 0)
+	case 4, 5: // abandon a stream (written, optionally flushed), Reset, then Write, Close
+		do(0, 0, 0, h)
+		if pat == 5 {
+			do(1, 1, 0, 0)
+		}
+		fs.b, ss.b = nil, nil
+		fw.Reset(&fs)
+		sw.Reset(&ss)
+		fw.Name, sw.Name = name, name
+		fw.Comment, sw.Comment = comment, comment
+		fw.Extra, sw.Extra = extra, extra
+		fw.OS, sw.OS = osb, osb
+		do(2, 0, h, len(payload))
+		do(3, 2, 0, 0)
+		// what the reset Writer emits is a complete member of the second part only
+		if level == 0 {
+			verifrt.Assert(vhEqual(fs.b, ss.b), "C06:reset-output-identical")
+		}
+		verifrt.Assert(len(fs.b) >= 8 && len(ss.b) >= 8 && vhEqual(fs.b[len(fs.b)-8:], ss.b[len(ss.b)-8:]), "C06:reset-trailer-bytes")
+		verifrt.Cover("written")
+		return
 	}
 	for i := 0; i < 4; i++ {
 		verifrt.Assert((fe[i] == nil) == (se[i] == nil), "C06:op-error")
